@@ -14,6 +14,7 @@ mod fam_graph;
 mod fam_accept;
 mod fam_nopanic;
 mod fam_meta;
+mod fam_inc;
 mod sema;
 mod fam_tree;
 mod fam_use;
@@ -45,6 +46,7 @@ fn main() {
         "accept" => fam_accept::run(rest),
         "nopanic" => fam_nopanic::run(rest),
         "meta" => fam_meta::run(rest),
+        "inc" => fam_inc::run(rest),
         f => {
             eprintln!("unknown family {f}");
             std::process::exit(2);
